@@ -5,6 +5,7 @@ CONSTANTS
   MaxLog = 3
   NonCmdKinds = {"C"}
   WarmStart = FALSE
+  MaxRestarts = 0
   UpgradeStrong = TRUE
   VerifyQuorum = TRUE
   RecheckTerm = TRUE
